@@ -28,8 +28,10 @@ def check(c):
         # M + G: the byte-level model of the lenient request-side scanner (ReqParse.tla): LenientSound / LenientComplete /
         # ParseInBounds on every byte string of the bounded universe, each replayed through the real middleware
         rcases = c.path("reqparse.ndjson")
-        c.model_check("ReqParseMC", RP_CFG % ("none", 7 if thorough else 5, "TRUE"), tag="ReqParseMC",
+        c.model_check("ReqParseMC", RP_CFG % ("none", 6 if thorough else 5, "TRUE"), tag="ReqParseMC",
                       env={"OUT_FILE": rcases}, timeout=3000, workers=6)
+        if thorough:   # one byte deeper at model level only (5.4 M strings; the replay stops at 6 bytes)
+            c.model_check("ReqParseMC", RP_CFG % ("none", 7, "FALSE"), tag="ReqParseMC_7", timeout=3000, workers=8)
         c.negative_twin("ReqParseMC", RP_CFG % ("portJunk", 6, "FALSE"), tag="ReqParseMC_neg_portJunk", expect=["LenientSound"], workers=4)
         rsum = c.path("c03gen.json")
         c.run_driver(["c03gen", "-cases", rcases, "-out", rsum], timeout=3000)
@@ -68,5 +70,5 @@ def check(c):
                      "SerializedOrigin + Origins!Allowed on the raw bytes); non-trivial = responses that carry ACAO. G: every byte "
                      "string of <= %d bytes over {a,1,0,.,:,/,[,],A} after `h://` (the universe on which ReqParse.tla is model-checked) "
                      "sent as Origin under a 5-pattern configuration and under allow-all; echo / scanner acceptance compared with the "
-                     "model and with the strict meaning") % (7 if thorough else 5)
+                     "model and with the strict meaning") % (6 if thorough else 5)
     c.assumptions += ["Go projection: header abbreviations, comma tokenisation of list headers, byte codes of Origin/ACAO"]
